@@ -402,11 +402,28 @@ var msgVocab = []string{"Msg", "Foo", "M", "Foo_Bar", "msg"}
 
 var kinds = []string{"int32", "string", "bytes", "msg", "enum", "rep", "map"}
 
+// family vocabularies: every name of a case derives from ONE stem by the affixes the generator's
+// uniquing rules react to, so that the rare three-way constellations (a field, a oneof and another
+// field whose derived Go names chase each other through the "append _ until free" loops) are drawn
+// in a few percent of the cases instead of once in 10^5.
+func familyVocab(stem string) (fields, oneofs, nested []string) {
+	title := strings.ToUpper(stem[:1]) + stem[1:]
+	fields = []string{stem, stem + "_", "_" + stem, stem + "__", title, "get_" + stem, "get_" + stem + "_", "Get" + title, "set_" + stem, "has_" + stem, "clear_" + stem,
+		"which_" + stem, stem + "_1", stem + "1", "get_get_" + stem, stem + "_case", stem + "_builder", "is_" + stem, "x_" + stem}
+	oneofs = []string{stem, stem + "_", title, "get_" + stem, "get_" + stem + "_", "has_" + stem, "clear_" + stem, "which_" + stem, "is_" + stem, stem + "__", "Get" + title}
+	nested = []string{title, title + "_", "Get" + title, title + "_case", title + "Entry", title + "_builder", "Is" + title}
+	return
+}
+
 func drawNameCase(t *rapid.T) nameCase {
 	c := nameCase{
 		Syntax: rapid.SampledFrom([]string{"proto2", "proto3", "editions"}).Draw(t, "syntax"),
 		Level:  rapid.SampledFrom(gencode.APILevels).Draw(t, "level"),
 		Msg:    rapid.SampledFrom(msgVocab).Draw(t, "msg"),
+	}
+	fieldVocab, oneofVocab, nestedVocab := fieldVocab, oneofVocab, nestedVocab
+	if fam := rapid.IntRange(0, 5).Draw(t, "family"); fam >= 3 {
+		fieldVocab, oneofVocab, nestedVocab = familyVocab([]string{"foo", "choice", "nested"}[fam-3])
 	}
 	used := map[string]bool{}
 	lc := map[string]bool{}
